@@ -11,7 +11,7 @@ use std::hash::BuildHasherDefault;
 
 type NoHash = probminhash::nohasher::NoHashHasher;
 
-fn dens_view(kind: &str, m: usize, items: &[u64]) -> Vec<u64> {
+fn dens_view(kind: &str, m: usize, items: &[u64], entry: usize) -> Vec<u64> {
     // kind = dens_<opt|rev>_<f64|f32>_<u64|float|u32>[_no]   (_no: the crate's identity hasher)
     let p: Vec<&str> = kind.split('_').collect();
     let bh = BuildHasherDefault::<FnvHasher>::default();
@@ -21,7 +21,15 @@ fn dens_view(kind: &str, m: usize, items: &[u64]) -> Vec<u64> {
         }};
         ($ty:ident, $f:ty, $h:ty, $bh:expr) => {{
             let mut s = $ty::<$f, u64, $h>::new(m, $bh);
-            s.sketch_slice(items).unwrap();
+            // the two sets of a trial go through different entry points: one slice call / item-wise calls + end_sketch
+            if entry % 2 == 0 {
+                s.sketch_slice(items).unwrap();
+            } else {
+                for x in items {
+                    s.sketch(x);
+                }
+                s.end_sketch();
+            }
             match p[3] {
                 "u64" => s.get_hsketch_u64(),
                 "u32" => s.get_hsketch_u32().iter().map(|x| *x as u64).collect(),
@@ -51,7 +59,7 @@ fn dens_view(kind: &str, m: usize, items: &[u64]) -> Vec<u64> {
 fn sketch_bits(kind: &str, m: usize, items: &[Item], entry: usize) -> Vec<u64> {
     if kind.starts_with("dens_") {
         let ids: Vec<u64> = items.iter().map(|i| i.id).collect();
-        return dens_view(kind, m, &ids);
+        return dens_view(kind, m, &ids, entry);
     }
     let cfg = Cfg { kind: kind.to_string(), m, ss: None };
     let mut sk = make(&cfg);
